@@ -33,6 +33,10 @@ CLAIMED = {
             "TLC checks, for every operation x starting state x fault/crash point of the matrix, that the rollback programs satisfy the post-conditions (error reported, valid chain of whole entries, managed refs unchanged or in sync, retry reaches the uninterrupted state); the real operations are run on every call index of their actual storage-call sequence with the k-th call failing and with the operation abandoned after the k-th call, and TLC judges the states re-read through a fresh handle.",
             "Faults are injected at the gitstore.Storer boundary of the in-memory store; the diverged ReconcileStaging case and post-crash verification verdicts are not yet compared.",
             "DESIGN.md section 4 C16"),
+    "C06": ("Delegations.tla, MC_Delegations.tla, Trace_Delegations.tla",
+            "TLC enumerates every delegation graph within the bounds (incl. terminating flags, the loadable cycle through a rule named like the primary file, and duplicate-name diamonds refused at load) and proves the coded grouped work-queue consults exactly the documented set, each rule once, and halts within the step bound; graphs are materialised as real v01/v02 rule files with git:/file: patterns, FindVerifiersForPath is called for a covering set of paths, and TLC compares names, thresholds and principals of the returned verifiers with the documented walk.",
+            "Bounds: at most 3 files and 3 rules in total exhaustively; pattern semantics limited to literal / prefix-glob / catch-all (table checked against fnmatch).",
+            "DESIGN.md section 4 C06"),
 }
 
 NOT_YET = {
